@@ -574,7 +574,7 @@ def glBody (cfg : Cfg) (s : State) (par : Option Id) (xs : List Id) : State × O
   else
     match par with
     | some p =>
-      if r.1.isGroup p then
+      if s.isGroup p then      -- the parent exists before the call
         let r2 := opAppend cfg r.1 p n
         if r2.2.isError then r2 else (r2.1, .id n)
       else (r.1, .id n)
